@@ -17,6 +17,7 @@
 #include "util/pcqueue.hh"
 #include "util/thread_pool.hh"
 #include "util/stream/chain.hh"
+#include "util/stream/stream.hh"
 #include "util/stream/config.hh"
 #include "util/stream/block.hh"
 
@@ -32,6 +33,8 @@
 #include <string>
 #include <thread>
 #include <unistd.h>
+#include <pthread.h>
+#include <signal.h>
 #include <vector>
 
 #ifdef KPU_KENLM_VERIF_POINT
@@ -401,7 +404,17 @@ std::string RunPcq(const PcqCase &c) {
         G.th[t].go = true;
         G.th[t].state = RUNNING;
         G.cv.notify_all();
-        bool arrived = G.cv.wait_for(l, std::chrono::milliseconds(ms), [t] { return G.th[t].state != RUNNING; });
+        bool arrived = G.cv.wait_for(l, std::chrono::milliseconds(ms / 2), [t] { return G.th[t].state != RUNNING; });
+        if (!arrived) {
+          // the thread now sits in the real sem_wait / mutex lock: interrupt it with signals (EINTR); it must stay there
+          pthread_t h = threads[t].native_handle();
+          for (int k = 0; k < 3 && !arrived; ++k) {
+            pthread_kill(h, SIGUSR1);
+            arrived = G.cv.wait_for(l, std::chrono::milliseconds(3), [t] { return G.th[t].state != RUNNING; });
+          }
+          if (!arrived)
+            arrived = G.cv.wait_for(l, std::chrono::milliseconds(ms / 2), [t] { return G.th[t].state != RUNNING; });
+        }
         out << " P" << t << (arrived ? "=passed" : "=blocked");
       }
       // let everything run to completion under the OS scheduler
@@ -431,7 +444,7 @@ std::string RunPcq(const PcqCase &c) {
 }
 
 
-std::string RunPcqFree(const PcqCase &c, unsigned seed, int perturb, bool record) {
+std::string RunPcqFree(const PcqCase &c, unsigned seed, int perturb, bool record, int signals) {
   const size_t P = c.prods.size(), C = c.quotas.size();
   util::PCQueue<long> queue(c.cap);
   std::vector<std::vector<long> > got(C);
@@ -456,6 +469,22 @@ std::string RunPcqFree(const PcqCase &c, unsigned seed, int perturb, bool record
       std::unique_lock<std::mutex> l(fm); ++finished; fcv.notify_all();
     }));
   }
+  // signaller: SIGUSR1 (no SA_RESTART) to random threads at random moments until everybody has finished
+  std::thread signaller;
+  if (signals > 0) {
+    signaller = std::thread([&] {
+      unsigned r = seed * 40503u + 12345u;
+      while (true) {
+        {
+          std::unique_lock<std::mutex> l(fm);
+          if (finished == P + C) return;
+        }
+        r ^= r << 13; r ^= r >> 17; r ^= r << 5;
+        pthread_kill(threads[r % (P + C)].native_handle(), SIGUSR1);
+        usleep(20 + (r >> 8) % (unsigned)signals);
+      }
+    });
+  }
   {
     std::unique_lock<std::mutex> l(fm);
     bool ok = fcv.wait_for(l, std::chrono::milliseconds(WatchdogMs()), [&] { return finished == P + C; });
@@ -464,6 +493,7 @@ std::string RunPcqFree(const PcqCase &c, unsigned seed, int perturb, bool record
       Die("FREE END stuck F -");
     }
   }
+  if (signaller.joinable()) signaller.join();
   for (size_t i = 0; i < threads.size(); ++i) threads[i].join();
   F.active = false;
   out << "FREE";
@@ -604,11 +634,92 @@ std::string RunChain(long b, long m, const std::vector<long> &data, const std::v
   for (long j = 2; j <= m; ++j) { if (j > 2) out << ';'; out << j << ':' << Join(results.seen[j]); }
   return out.str();
 }
+// ---------------------------------------------------------------- Stream over a chain with empty blocks
+// schain <b> <recs_per_block> <blocks> <sched>
+//   <blocks>: ';'-separated blocks, each a ','-separated list of non-zero records; "0" = an empty block.
+//   source (thread 1) emits the blocks; the in-place filter (thread 2, Link based) drops the negative records,
+//   compacts and calls SetValidSize(kept); the reader (thread 3) is a util::stream::Stream; then the Recycler.
+struct BlockSource {
+  BlockSource(const std::vector<std::vector<long> > *blocks) : blocks_(blocks) {}
+  void Run(const util::stream::ChainPosition &position) {
+    size_t i = 0;
+    for (util::stream::Link l(position); l; ++l) {
+      if (i == blocks_->size()) { l.Poison(); break; }
+      int64_t *p = static_cast<int64_t *>(l->Get());
+      const std::vector<long> &b = (*blocks_)[i++];
+      for (size_t k = 0; k < b.size(); ++k) p[k] = b[k];
+      l->SetValidSize(b.size() * sizeof(int64_t));
+    }
+  }
+  const std::vector<std::vector<long> > *blocks_;
+};
+struct InPlaceFilter {
+  void Run(const util::stream::ChainPosition &position) {
+    for (util::stream::Link l(position); l; ++l) {
+      int64_t *p = static_cast<int64_t *>(l->Get());
+      size_t n = l->ValidSize() / sizeof(int64_t), kept = 0;
+      for (size_t k = 0; k < n; ++k) if (p[k] > 0) p[kept++] = p[k];
+      l->SetValidSize(kept * sizeof(int64_t));
+    }
+  }
+};
+struct StreamReader {
+  StreamReader(std::vector<long> *seen) : seen_(seen) {}
+  void Run(const util::stream::ChainPosition &position) {
+    for (util::stream::Stream s(position); s; ++s) {
+      seen_->push_back((long)*static_cast<const int64_t *>(s.Get()));
+      if (seen_->size() > 100000) abort();   // runaway reader
+    }
+  }
+  std::vector<long> *seen_;
+};
+
+std::string RunStreamChain(long b, long recs, const std::vector<std::vector<long> > &blocks,
+                           const std::vector<long> &sched) {
+  std::vector<long> seen;
+  {
+    std::unique_lock<std::mutex> l(G.m);
+    ResetSched(b);
+    G.coarse = true;
+    G.th.resize(1);
+    G.active = true;
+  }
+  std::thread main_thread([&] {
+    ManagedBegin(0);
+    {
+      util::stream::ChainConfig config(sizeof(int64_t), b, sizeof(int64_t) * recs * b);
+      util::stream::Chain chain(config);
+      chain >> BlockSource(&blocks) >> InPlaceFilter() >> StreamReader(&seen);
+      chain.Wait();
+    }
+    ManagedEnd();
+  });
+  std::unique_lock<std::mutex> l(G.m);
+  std::string trace = Drive(l, sched, 1);
+  G.active = false;
+  l.unlock();
+  main_thread.join();
+  std::ostringstream out;
+  out << trace << "3:" << Join(seen);
+  return out.str();
+}
 #endif
 
 }  // namespace
 
+volatile sig_atomic_t g_signals = 0;
+extern "C" void SigHandler(int) { ++g_signals; }
+
 int main() {
+  {
+    // SIGUSR1 handled WITHOUT SA_RESTART: a blocking sem_wait returns EINTR (WaitSemaphore must retry)
+    struct sigaction sa;
+    std::memset(&sa, 0, sizeof(sa));
+    sa.sa_handler = SigHandler;
+    sigemptyset(&sa.sa_mask);
+    sa.sa_flags = 0;
+    sigaction(SIGUSR1, &sa, NULL);
+  }
 #if HAVE_HOOKS
   util::verif::PointHook() = &Dispatch;
 #endif
@@ -636,6 +747,17 @@ int main() {
       long cap, workers; std::string reqs, sched;
       in >> cap >> workers >> reqs >> sched;
       std::cout << RunPool(cap, workers, Nats(reqs), Nats(sched)) << std::endl;
+    } else if (op == "schain") {
+      long b, recs; std::string blocks, sched;
+      in >> b >> recs >> blocks >> sched;
+      std::vector<std::vector<long> > bl;
+      std::vector<std::string> parts = Split(blocks, ';');
+      for (size_t i = 0; i < parts.size(); ++i) {
+        std::vector<long> v = Nats(parts[i]), w;
+        for (size_t k = 0; k < v.size(); ++k) if (v[k] != 0) w.push_back(v[k]);
+        bl.push_back(w);
+      }
+      std::cout << RunStreamChain(b, recs, bl, Nats(sched)) << std::endl;
     } else if (op == "chain") {
       long b, m; std::string data, sched;
       in >> b >> m >> data >> sched;
@@ -644,14 +766,14 @@ int main() {
     } else if (op == "pcqfree") {
       // pcqfree <cap> <prods> <quotas> <seed> <perturb%> <record 0|1>
       std::string cap, prods, quotas;
-      unsigned seed = 1; int perturb = 0, record = 0;
-      in >> cap >> prods >> quotas >> seed >> perturb >> record;
+      unsigned seed = 1; int perturb = 0, record = 0, signals = 0;
+      in >> cap >> prods >> quotas >> seed >> perturb >> record >> signals;
       PcqCase c;
       c.cap = atol(cap.c_str());
       std::vector<std::string> ps = Split(prods, ';');
       for (size_t i = 0; i < ps.size(); ++i) c.prods.push_back(Nats(ps[i]));
       c.quotas = Nats(quotas);
-      std::cout << RunPcqFree(c, seed, perturb, record != 0) << std::endl;
+      std::cout << RunPcqFree(c, seed, perturb, record != 0, signals) << std::endl;
     } else {
       std::cout << "bad-op" << std::endl;
     }
